@@ -706,7 +706,7 @@ func (fv *FuncVerifier) havocHeaps(st *State, hs map[string]bool, all bool) {
 	na := fv.fresh("alloc", "Int")
 	fv.assume(st, "(>= "+na+" "+st.alloc+")")
 	st.alloc = na
-	for h := range hs {
+	for _, h := range sortedKeys(hs) {
 		fv.heapOf(st, h)
 		st.heaps[h] = fv.fresh(h, fv.eng.sc.heaps[h])
 		fv.heapClosure(h, st.heaps[h], na)
@@ -972,7 +972,7 @@ func (fv *FuncVerifier) callContract(st *State, e *ast.CallExpr, fn *types.Func,
 		}
 		// new heaps with frame
 		oldAlloc := st.alloc
-		for h := range hs {
+		for _, h := range sortedKeys(hs) {
 			H := fv.heapOf(st, h)
 			nh := fv.fresh(h, sc.heaps[h])
 			q := fv.qname()
@@ -1010,7 +1010,7 @@ func (fv *FuncVerifier) callContract(st *State, e *ast.CallExpr, fn *types.Func,
 			fv.assume(st, "(>= "+na+" "+st.alloc+")")
 			st.alloc = na
 		}
-		for h := range hs {
+		for _, h := range sortedKeys(hs) {
 			fv.heapClosure(h, st.heaps[h], na)
 		}
 	} else if c.Flags["allocs"] != "" {
